@@ -4,17 +4,18 @@
 out="$1"; shift
 mkdir -p /tmp/vcopy
 rsync -a --delete --exclude .git --exclude replays --exclude evidence /verif/ /tmp/vcopy/
-for p in "$@"; do
-  for d in /tmp/mut/$p-out/m*; do
+for arg in "$@"; do
+  dirn="${arg%%:*}"; p="${arg##*:}"     # <worktree-dir>[:<property>]
+  for d in /tmp/mut/$dirn-out/m*; do
     [ -f "$d/patch.diff" ] || continue
-    wt=/tmp/mut/$p
+    wt=/tmp/mut/$dirn
     git -C $wt checkout -q -- . ; git -C $wt clean -fdq
-    if ! git -C $wt apply "$d/patch.diff"; then echo "$p $(basename $d) PATCH-FAILS" >> "$out"; continue; fi
+    if ! git -C $wt apply "$d/patch.diff"; then echo "$dirn/$p $(basename $d) PATCH-FAILS" >> "$out"; continue; fi
     start=$(date +%s)
     res=$(cd /tmp/vcopy && VERIF_REPO=$wt timeout 1500 ./check $p 2>&1 | tail -3 | tr '\n' ' ')
     end=$(date +%s)
     git -C $wt checkout -q -- . ; git -C $wt clean -fdq
-    echo "$p $(basename $d) $((end-start))s :: $res" >> "$out"
+    echo "$dirn/$p $(basename $d) $((end-start))s :: $res" >> "$out"
   done
 done
 echo "DONE $*" >> "$out"
